@@ -5,6 +5,8 @@ pub mod c02;
 pub mod c03;
 pub mod c05;
 pub mod c08;
+pub mod c09;
+pub mod c10;
 pub mod c12;
 pub mod c13;
 pub mod c06;
@@ -22,6 +24,8 @@ pub fn dispatch(ctx: &mut Ctx) {
         "C03" => c03::run(ctx),
         "C05" => c05::run(ctx),
         "C08" => c08::run(ctx),
+        "C09" => c09::run(ctx),
+        "C10" => c10::run(ctx),
         "C12" => c12::run(ctx),
         "C13" => c13::run(ctx),
         "C07" => c07::run(ctx),
